@@ -7,29 +7,56 @@ class C36(Prop):
     check_mod = "C36"
     drivers = [dict(pkg="internal/metrics", test="TestVerifC36")]
     n_quick = 150
-    n_thorough = 8000
+    n_thorough = 3000
     shard = 40
     ready = True
-    rule = ("the real onMetrics handler with stub path manager / WebRTC server returning generated entities (0-3 paths with "
-            "readers, 0-2 sessions) whose names, paths and remote addresses are client-style strings: quotes, backslashes, "
-            "newlines, braces, commas, NUL, invalid UTF-8, the injection witness; counters incl. 0 and 2^63-1. The body is "
-            "parsed by the Coq parser and compared with the samples the entities call for. Non-trivial = at least one label "
-            "value containing a quote, backslash or newline")
-    trusted_base = ["Coq 8.16.1 kernel + VM", "in-package driver zz_verif_c36_test.go (expected samples = the property's reading of "
-                    "'each entity's values and counters', written independently of metrics.go)",
+    rule = ("the real onMetrics handler in front of stub servers for EVERY entity kind (paths with readers, forward "
+            "destinations per path, HLS sessions and muxers, RTSP/RTSPS conns and sessions, RTMP/RTMPS conns, SRT conns, "
+            "WebRTC sessions, MoQ sessions): 4 profiles (all servers / random subset / paths only / one server), 0-3 "
+            "entities per list (25% empty), list errors (1/12), exact duplicates, every string field a client-style "
+            "string (quotes, backslashes, newlines, braces, commas, NUL, invalid UTF-8, URL metacharacters, the "
+            "injection witness), counters incl. 0 and 2^63-1, floats incl. 0, fractions, 1e21, 5e-324, MaxFloat64, "
+            "+-Inf, NaN, random bit patterns; queries: none (30%), type= (existing kind, mostly one that has "
+            "entities; unknown values), one filter (mostly the key of an existing entity), type+filter of the same / "
+            "another kind, 2-3 filters, forward_dests with path= / forward_dest=, unrelated parameters. Shipped: "
+            "every scalar field of every entity (by reflection), the query, the body, the expected samples. "
+            "Non-trivial = an entity with a quote, backslash or newline in a string field is shown")
+    trusted_base = ["Coq 8.16.1 kernel + VM (primitive 63-bit integers only to ship byte strings compactly)",
+                    "in-package driver zz_verif_c36_test.go: stub servers, reflection over the defs structs; expected "
+                    "samples = the property's reading written independently of metrics.go (every uint64/float64 field F "
+                    "of an entity is exported as <kind>_<snake_case(F)> (one listed exception: ByteMSS -> bytes_mss), "
+                    "<kind> counts the entity, paths_readers counts readers per type, labels per kind from a 13-line "
+                    "table, kind selected by type= and its own filter, entity passes if the filter equals its key)",
                     "the Prometheus text-format parser in Model/C36_Metrics.v is the reference consumer",
-                    "stdlib DecimalZ round trip (Z.to_int / Z.of_int) for FormatInt"]
-    assumptions = ["float-valued samples (jitter, rates) are opaque value tokens: validity of the line is checked, not the number",
-                   "counters >= 2^63 are printed negative by int64(uint64): out of the generated range",
-                   "entity kinds other than paths and WebRTC sessions use the same tags/metric functions (not separately driven)"]
+                    "Model/C36_Sections.v (section logic + table of 13 kinds) hand-written, tied to the handler by "
+                    "comparing the FULL body byte for byte on every case",
+                    "oracle: strconv.FormatFloat(v,'f',-1,64) tokens are shipped by the driver (non-empty, no newline "
+                    "is checked on every case: wf_stateb)",
+                    "stdlib DecimalZ round trip (Z.to_int / Z.of_int) for FormatInt",
+                    "gin's ctx.Query = first value of the key in the decoded query (driver ships decoded pairs)"]
+    assumptions = ["float-valued samples (jitter, rates) are opaque value tokens: the line must parse and the token must equal "
+                   "strconv.FormatFloat(v,'f',-1,64); the number itself is not interpreted",
+                   "counters >= 2^63 are printed negative by int64(uint64) (modelled: wrap64) and are out of the generated range; "
+                   "C36_counter_reads_back is stated for counters below 2^63",
+                   "the path manager is always set (core does so); a nil path manager would panic and is not modelled",
+                   "presence of a server is modelled per kind (the two HLS kinds / the two RTSP kinds share one server in reality)"]
     manifest = dict(
-        text="Coq theorem for ALL label values, names and value tokens: the exposition text the code writes parses back (with a "
-             "Prometheus text-format parser written in Coq) to exactly the rendered samples; FormatInt values read back as the "
-             "counter; the pre-fix code (raw label values) is refuted with the injection witness. The real handler's body is "
-             "parsed in Coq and compared with the entities on every run.",
-        note="Genuine defect fixed in /repo (5f31f76: label values were not escaped). Float samples are opaque tokens.",
-        technique="Coq proof (parser/printer inverse by induction on label lists and lines) + correspondence by vm_compute")
-
+        text="Coq theorems for ALL entity sets (any strings in any field, any counters), ALL queries: the body onMetrics writes "
+             "(model of the section logic for all 13 entity kinds, every metric name, label key and the entity field feeding "
+             "it, type= and the 13 filter parameters, the zero-valued lines) parses back, with a Prometheus text-format parser "
+             "written in Coq, to exactly the declarative list 'one sample per entity passing the filter and per metric of its "
+             "kind, labels = the entity's fields, value = the entity's counter' (C36_faithful, C36_expected_iff); every "
+             "labelled sample belongs to an existing entity passing every active filter and carries the filter value under the "
+             "filtered label (C36_filter_sound, C36_filter_label); unlabelled samples are zero lines of kinds without entities "
+             "(C36_zero_sound); rendering layer: C36_parse_render, C36_value_faithful, C36_label_value_roundtrip; the pre-fix "
+             "code (raw label values) is refuted with the injection witness. On every run the real handler's full body is "
+             "compared byte for byte with the model and, independently, parsed and compared with expected samples for every "
+             "metric name of every kind present.",
+        note="Genuine defect fixed in /repo (5f31f76: label values were not escaped). Float samples are opaque tokens "
+             "(FormatFloat oracle). The model is hand-written: a new metric or section in metrics.go shows up as a model "
+             "mismatch until the table is extended.",
+        technique="Coq proof (parser/printer inverse by induction on label lists and lines; section logic by case analysis over "
+                  "a table checked by computation) + correspondence by vm_compute")
 
     def evaluate(self, ctx, cases):
         # the driver's first record defines, once per cases file, the field names and metric names of every entity
